@@ -3,6 +3,7 @@ mod crash;
 mod decode;
 mod dev;
 mod exec;
+mod faults;
 
 use std::io::{BufRead, BufWriter, Write};
 
@@ -34,6 +35,26 @@ fn main() {
                 }
                 let prog: serde_json::Value = serde_json::from_str(&line).expect("program json");
                 n_ev += exec::run_program(&prog, &mut w);
+                n_prog += 1;
+            }
+            w.flush().unwrap();
+            println!("{{\"programs\":{},\"events\":{}}}", n_prog, n_ev);
+        }
+        "faults" => {
+            // exhaustive single-fault enumeration (C09): for every op of every program and every k,
+            // re-run the program with the k-th device call of that op failing
+            let inp = std::fs::File::open(&args[2]).expect("open programs");
+            let out = std::fs::File::create(&args[3]).expect("create events");
+            let mut w = BufWriter::with_capacity(1 << 20, out);
+            let mut n_prog = 0u64;
+            let mut n_ev = 0u64;
+            for line in std::io::BufReader::new(inp).lines() {
+                let line = line.expect("read");
+                if line.trim().is_empty() {
+                    continue;
+                }
+                let prog: serde_json::Value = serde_json::from_str(&line).expect("program json");
+                n_ev += faults::enumerate(&prog, &mut w);
                 n_prog += 1;
             }
             w.flush().unwrap();
